@@ -180,6 +180,7 @@ def e2e_cases(draw):
         'copy_dir': draw(st.sampled_from([None, 'share', 'ab'])),
         'build': draw(st.integers(0, 2)) == 0,
         'backend': draw(st.sampled_from(['make', 'ninja'])),
+        'pch': draw(st.sampled_from([None, None, None, 'string'])),
     }
 
 
@@ -214,6 +215,10 @@ def render_project(root, case):
     if case['intermediate_dir'] is not None and case['kind'] != \
             'object_files':
         kw += ', intermediate_dir={!r}'.format(case['intermediate_dir'])
+    if case.get('pch') and case['kind'] in ('executable', 'static_library',
+                                            'shared_library'):
+        files[posixpath.join(sub, 'vf_pch.h')] = '/* pch */\n'
+        kw += ", pch='vf_pch.h'"
     lines = []
     k = case['kind']
     name = case['name']
@@ -309,6 +314,12 @@ def prop_e2e(rec):
                     rec.classes['collision-rejected'] += 1
                     return
                 if 'already exists' in r.err:
+                    if case.get('pch') and 'vf_pch.h' in r.err:
+                        rec.fail('e2e/false-collision/pch-string', 'pch= '
+                                 'given as a string with several sources is '
+                                 'rejected: ' + r.err.strip()[-300:], case)
+                        rec.excluded()
+                        return
                     raise Violation('e2e/false-collision', 'configure '
                                     'rejected distinct inputs: {}'.format(
                                         r.err.strip()[-600:]), case)
